@@ -47,6 +47,15 @@ fn main() {
                 std::fs::write(p, serde_json::to_string_pretty(&serde_json::json!({"stats": rec.stats_json(), "samples": rec.samples})).unwrap()).unwrap();
             }
         }
+        "matrix" => {
+            let cfg = matrix::MatrixCfg { seed, auth: get("auth", "1") == "1", subst: get("subst", "1") == "1", max_subst_per_slot: get("maxsubst", "6").parse().unwrap() };
+            let mut rec = rec::Recorder::to_file(&out);
+            matrix::run(&cfg, &mut rec);
+            eprintln!("{}", serde_json::to_string(&rec.stats_json()).unwrap());
+            if let Some(p) = m.get("stats") {
+                std::fs::write(p, serde_json::to_string_pretty(&serde_json::json!({"stats": rec.stats_json(), "samples": rec.samples})).unwrap()).unwrap();
+            }
+        }
         "ta" => {
             let mut o = fndrv::Out::new(&out);
             tadrv::run(seed, m.get("paths").map(|s| s.as_str()), get("sample", "100").parse().unwrap(), get("random", "50").parse().unwrap(), &mut o);
